@@ -226,8 +226,8 @@ PROP = Prop(
           "{1..7, limit-3..limit+3, limit/2 +- 2, 2^31.., 2^32.., 2^63.., 2^64+1, 10^30}; add / remove / join / union / intersection; hash strategies "
           "incl. hand-written ones sending all positions of a key to one cell. Non-trivial = some cell reached a limit; distinct by hash of (parameters, operations)."),
     workloads=[
-        Workload("cms", wl_cms, quick=1500, thorough=100000),
-        Workload("cbf", wl_cbf, quick=1500, thorough=100000),
+        Workload("cms", wl_cms, quick=1500, thorough=500000),
+        Workload("cbf", wl_cbf, quick=1500, thorough=500000),
     ],
     assumptions=["a counting-Bloom cell addressed m times by one key may end anywhere between old+n and old+m*n (clamped): the library counts a position once per occurrence, a refactoring may count it once",
                  "counting-Bloom removals are legitimate (amount <= outstanding additions) unless the key's minimum is pinned at the limit",
